@@ -12,3 +12,5 @@
 (define-fun Disposition ((op Int)) Bool (or (= op 1) (= op 3) (= op 4) (= op 7)))
 (declare-fun strJoin (Sl.Str Str) Str)
 (declare-fun strRepeat (Str Int) Str)
+; the negated / positive counterpart of a match operator (0<->1, 2<->3, 4<->5, 6<->7)
+(define-fun negOp ((op Int)) Int (ite (= (mod op 2) 0) (+ op 1) (- op 1)))
